@@ -129,9 +129,16 @@ func battery4(codes []byte) []req4 {
 				if o116 {
 					p.Opts = append(p.Opts, pkt.Opt4{Code: 116, Data: []byte{1}})
 				}
-				for _, yi := range []bool{false, true} {
-					for _, o51 := range []bool{false, true} {
-						out = append(out, req4{p.Bytes(), fmt.Sprintf("type=%d prl=%s opt116=%v yiaddr=%v opt51=%v", mt, names[pi], o116, yi, o51), yi, o51, mt == 3})
+				for _, vc := range []string{"", "PXEClient:Arch:00007:UNDI:003016", "MSFT 5.0"} {
+					q := p
+					q.Opts = append([]pkt.Opt4{}, p.Opts...)
+					if vc != "" {
+						q.Opts = append(q.Opts, pkt.Opt4{Code: 60, Data: []byte(vc)}, pkt.Opt4{Code: 93, Data: []byte{0, 7}})
+					}
+					for _, yi := range []bool{false, true} {
+						for _, o51 := range []bool{false, true} {
+							out = append(out, req4{q.Bytes(), fmt.Sprintf("type=%d prl=%s opt116=%v class=%q yiaddr=%v opt51=%v", mt, names[pi], o116, vc, yi, o51), yi, o51, mt == 3})
+						}
 					}
 				}
 			}
@@ -1165,4 +1172,43 @@ func registerBuiltins() {
 			}
 		}
 	})
+}
+
+// Battery4 exposes the DHCPv4 request battery (raw datagrams) for other checks.
+func Battery4(codes []byte) [][]byte {
+	var out [][]byte
+	seen := map[string]bool{}
+	for _, rq := range battery4(codes) {
+		if !seen[string(rq.bytes)] {
+			seen[string(rq.bytes)] = true
+			out = append(out, rq.bytes)
+		}
+	}
+	return out
+}
+
+// Battery6 exposes the DHCPv6 request battery.
+func Battery6(codes []uint16) [][]byte {
+	var out [][]byte
+	for _, rq := range battery6(codes) {
+		out = append(out, rq.bytes)
+	}
+	return out
+}
+
+// ValidArgs returns one valid argument vector per built-in plugin and protocol.
+func ValidArgs(scratch string) (v4, v6 map[string][]string) {
+	os.WriteFile(filepath.Join(scratch, "valid-leases4.txt"), []byte("02:00:00:17:00:01 10.10.10.7\n"), 0o644)
+	os.WriteFile(filepath.Join(scratch, "valid-leases6.txt"), []byte("02:00:00:17:00:01 2001:db8:9::7\n"), 0o644)
+	v4 = map[string][]string{
+		"lease_time": {"3600s"}, "dns": {"8.8.8.8", "8.8.4.4"}, "router": {"192.168.1.1"}, "netmask": {"255.255.255.0"},
+		"range": {filepath.Join(scratch, "valid-leases.sqlite"), "10.10.10.100", "10.10.10.120", "60s"},
+		"file":  {filepath.Join(scratch, "valid-leases4.txt")}, "mtu": {"1500"}, "searchdomains": {"a.example", "b.example"},
+		"staticroute": {"10.0.0.0/8,10.10.10.1"}, "ipv6only": {"300s"}, "autoconfigure": {"1"}, "nbp": {"tftp://10.0.0.254/pxelinux.0"}, "sleep": {"0s"},
+	}
+	v6 = map[string][]string{
+		"file": {filepath.Join(scratch, "valid-leases6.txt")}, "dns": {"2001:4860:4860::8888"}, "nbp": {"http://[2001:db8:a::1]/nbp?params=x"},
+		"prefix": {"2001:db8:0:10::/60", "64"}, "searchdomains": {"a.example"}, "sleep": {"0s"},
+	}
+	return
 }
